@@ -249,10 +249,9 @@ func (s *Storer) GetReader(offset int64, verifyCrc bool) (*Reader, error) {
 	s.mux.RLock()
 	defer s.mux.RUnlock()
 
-	s.dataSetMux.Lock()
-	defer s.dataSetMux.Unlock()
-
-	ds := s.dataSet
+	// s.mux already excludes resetDataSet; holding dataSetMux here would dead lock with
+	// the crc verification of the aof reader (isCorrupted -> hasWriter -> getDataSet)
+	ds := s.getDataSet()
 	if !ds.InRange(offset) {
 		return nil, os.ErrNotExist
 	}
